@@ -459,7 +459,14 @@ func (k Keeper) buildRequest(
 
 	if !superMode {
 		binding, _ := k.GetServiceBinding(ctx, serviceName, provider)
-		serviceFee = k.GetPrice(ctx, consumer, binding)
+
+		// the fee recorded is the price the consumer is charged (FilterServiceProviders): for a price
+		// in another token that is the exchanged price, for a price in the base denom both agree
+		price, _, err := k.GetExchangedPrice(ctx, consumer, binding)
+		if err != nil {
+			price = k.GetPrice(ctx, consumer, binding)
+		}
+		serviceFee = price
 	}
 
 	return types.NewCompactRequest(
